@@ -128,9 +128,10 @@ def r1(ctx):
         rp = util.params_of(nr0.node)[1]
         fills = [n for n in walk_function(nr0.node) if isinstance(n, ast.For) and ("None is %s" % util.params_of(nr0.node)[0], True) in guard_atoms(ctx.cfg(nr0), ctx.cfg(nr0).node_of(n))]
         rets = [n for n in walk_function(nr0.node) if isinstance(n, ast.Return) and n.value is not None]
-        if len(fills) == 1 and len(rets) == 1:
+        if len(fills) == 1 and len(rets) >= 1:
             h2, b2 = _order_chain(nr0.node, fills[0].iter)
-            h3, b3 = _order_chain(nr0.node, rets[0].value)
+            h3s = [_order_chain(nr0.node, r_.value) for r_ in rets]
+            h3, b3 = ([x for x in h3s if x[0] != "preserved"] or h3s)[0]
             if "reordered" in (h2, h3):
                 ok, why = False, "normalize_user_regions orders the references as `%s`, not as the BAM header does" % (b2 if h2 == "reordered" else b3)
             elif h2 == "preserved" and isinstance(b2, ast.Name) and b2.id == rp and h3 == "preserved" and refs.endswith(".references"):
